@@ -13,8 +13,41 @@ pub assume_specification<'a> [BorrowedFd::<'a>::borrow_raw] (fd: RawFd) -> (r: B
 
 //@ item src/io.rs / struct IoDispatcher props=C16,C17
 //@ enditem
-//@ item src/io.rs / trait IoLoopInner props=C16
+//@ open src/io.rs / trait IoLoopInner
+//@ region ioloopinner_ghost props=C16,C17,C15
+    // monotone history witnesses (DESIGN 2.12)
+    /// kill(dispatcher) has been called on this loop
+    spec fn w_killed(&self, dispatcher: &RefCell<IoDispatcher>) -> bool;
+    /// reregister(dispatcher) has been called and returned Ok
+    spec fn w_rearmed(&self, dispatcher: &RefCell<IoDispatcher>) -> bool;
+//@ endregion
+//@ item src/io.rs / trait IoLoopInner / fn register props=C16 ret=r
 //@ enditem
+//@ item src/io.rs / trait IoLoopInner / fn reregister props=C17 ret=r
+//@ spec
+        ensures r is Ok ==> self.w_rearmed(dispatcher),
+//@ enditem
+//@ item src/io.rs / trait IoLoopInner / fn kill props=C16
+//@ spec
+        ensures self.w_killed(dispatcher),
+//@ enditem
+//@ close
+//@ item src/io.rs / struct Async props=C16,C17
+//@ enditem
+
+//@ open src/io.rs / impl IoLoopInner for LoopInner<'_, Data>
+//@ region ioloopinner_impl_ghost props=C16
+    // the witnesses carry no information about a concrete loop (they are abstract for every caller)
+    closed spec fn w_killed(&self, dispatcher: &RefCell<IoDispatcher>) -> bool { true }
+    closed spec fn w_rearmed(&self, dispatcher: &RefCell<IoDispatcher>) -> bool { true }
+//@ endregion
+//@ item src/io.rs / impl IoLoopInner for LoopInner<'_, Data> / fn register props=C16 sigonly ret=r
+//@ enditem
+//@ item src/io.rs / impl IoLoopInner for LoopInner<'_, Data> / fn reregister props=C16 sigonly ret=r
+//@ enditem
+//@ item src/io.rs / impl IoLoopInner for LoopInner<'_, Data> / fn kill props=C16 sigonly
+//@ enditem
+//@ close
 
 impl<'l, Data> LoopInner<'l, Data> {
 //@ slice src/io.rs / impl IoLoopInner for LoopInner<'_, Data> / fn kill :: body props=C16,C06 name=IoLoopInner::kill
@@ -83,5 +116,86 @@ impl IoDispatcher {
             old(disp_cell).waker matches Some(w) ==> w_woken(w),
             r == Ok::<PostAction, crate::Error>(PostAction::Continue),
             final(disp_cell).fd == old(disp_cell).fd, final(disp_cell).token == old(disp_cell).token,
+//@ endslice
+}
+
+//@ region nonblocking_specs props=C17
+/// the flag word set_nonblocking must install: the current one with O_NONBLOCK forced to `on`, everything else kept
+pub open spec fn with_nonblock(f: crate::rustix::fs::OFlags, on: bool) -> crate::rustix::fs::OFlags {
+    crate::rustix::fs::OFlags { bits: if on { f.bits | 0x800u32 } else { f.bits & !0x800u32 } }
+}
+pub open spec fn is_nonblock(f: crate::rustix::fs::OFlags) -> bool { (f.bits & 0x800u32) == 0x800u32 }
+//@ endregion
+//@ item src/io.rs / fn set_nonblocking props=C17 ret=r
+//@ spec
+    requires
+        // C17 (may-call side): the only flag word that may be installed is the current one with O_NONBLOCK changed
+        forall|d: int, f: crate::rustix::fs::OFlags| #[trigger] crate::rustix::fs::may_setfl(d, f) <==> (
+            d == crate::ext::fd_raw(&fd) && f == with_nonblock(crate::rustix::fs::flags_of(d), is_nonblocking) && f != crate::rustix::fs::flags_of(d)),
+    ensures
+        // C17: reports the blocking mode the fd had BEFORE (this is what Drop / into_inner restore), and -- unless it was
+        // already as requested -- has installed the requested mode, touching no other flag
+        r matches Ok(prev) ==> {
+            &&& prev == is_nonblock(crate::rustix::fs::flags_of(crate::ext::fd_raw(&fd)))
+            &&& prev != is_nonblocking ==> crate::rustix::fs::w_setfl(crate::ext::fd_raw(&fd), with_nonblock(crate::rustix::fs::flags_of(crate::ext::fd_raw(&fd)), is_nonblocking))
+        },
+//@ entry
+    proof {
+        assert(forall|b: u32| #[trigger] (b | 0x800u32) == b <==> (b & 0x800u32) == 0x800u32) by (bit_vector);
+        assert(forall|b: u32| #[trigger] (b & !0x800u32) == b <==> (b & 0x800u32) != 0x800u32) by (bit_vector);
+    }
+//@ enditem
+
+impl<'l, F: AsFd> Async<'l, F> {
+//@ slice src/io.rs / impl Async<'l, F> / fn new :: stmts <<if let Err(err) = unsafe { inner.register(&dispatcher) }>> .. <<if let Err(err) = unsafe { inner.register(&dispatcher) }>> props=C15,C16,C17 name=Async::new::register_step
+//@ sig
+    /// S1 slice of Async::new: the statement that registers the freshly built dispatcher and cleans up if that fails.
+    /// Free variables `inner`, `dispatcher`, `fd`, `was_nonblocking` become parameters. Dropped: everything before
+    /// (switch to non-blocking, dispatcher construction, slot allocation -- it needs an unsizing coercion Verus does not
+    /// support) and after (the transmute that erases `Data`, the struct literal).
+    fn new_register_step<Data>(inner: Rc<LoopInner<'l, Data>>, dispatcher: Rc<RefCell<IoDispatcher>>, fd: F, was_nonblocking: bool) -> (r: crate::Result<()>)
+//@ spec
+        requires
+            // C15 (may-call side): the only flag word the failure path may install is the one that puts O_NONBLOCK back
+            forall|d: int, f: crate::rustix::fs::OFlags| #[trigger] crate::rustix::fs::may_setfl(d, f) <==> (
+                d == crate::ext::fd_raw(&fd) && f == with_nonblock(crate::rustix::fs::flags_of(d), was_nonblocking) && f != crate::rustix::fs::flags_of(d)),
+        ensures
+            // C15: if registering the fd fails the adapter's slot is given back to the loop (kill vacates it and makes sure
+            // the fd is not in the poller) before the error is returned: the loop is as if adapt_io had not been called
+            r is Err ==> inner.w_killed(&*dispatcher),
+//@ entry
+        proof { broadcast use crate::ext::axiom_fd_raw_ref; }
+//@ tail
+        Ok(())
+//@ endslice
+
+//@ slice src/io.rs / impl Drop for Async<'_, F> / fn drop :: body props=C16,C17 name=Async::drop
+//@ rw R10 * <<self.dispatcher.borrow()>> => <<disp_cell>>
+//@ sig
+    /// S1 slice: the whole body of `impl Drop for Async` (runs on drop AND at the end of into_inner), lifted into an
+    /// ordinary method; R10: the borrow of the adapter's IoDispatcher cell becomes `disp_cell`.
+    fn async_drop_body(&mut self, disp_cell: &IoDispatcher)
+//@ spec
+        requires
+            // C17 (may-call side): the only flag word Drop may install is the current one with O_NONBLOCK put back to what it
+            // was before the adapter was created
+            forall|d: int, f: crate::rustix::fs::OFlags| #[trigger] crate::rustix::fs::may_setfl(d, f) <==> (
+                d == disp_cell.fd as int && f == with_nonblock(crate::rustix::fs::flags_of(d), old(self).was_nonblocking) && f != crate::rustix::fs::flags_of(d)),
+        ensures
+            // C16: the adapter has been taken out of the loop (slot vacated and fd deleted from the poller: see kill)
+            old(self).inner.w_killed(&*old(self).dispatcher),
+//@ endslice
+
+//@ slice src/io.rs / impl Async<'l, F> / fn register_waker :: body props=C17 name=Async::register_waker
+//@ rw R10 * <<self.dispatcher.borrow_mut()>> => <<disp_cell>>
+//@ sig
+    /// S1 slice: whole body of Async::register_waker (what a poll that hit WouldBlock does); R10 as above.
+    fn register_waker_body(&self, disp_cell: &mut IoDispatcher, interest: Interest, waker: Waker) -> (r: crate::Result<()>)
+//@ spec
+        ensures
+            // C17: the task's waker and the interest it waits for are stored BEFORE the one-shot registration is re-armed
+            final(disp_cell).interest == interest, final(disp_cell).waker == Some(waker),
+            final(disp_cell).fd == old(disp_cell).fd, final(disp_cell).token == old(disp_cell).token,
+            r is Ok ==> self.inner.w_rearmed(&*self.dispatcher),
 //@ endslice
 }
